@@ -343,76 +343,7 @@ func truncateObligations(w *World, r *Report, li *LockInfo) {
 		r.check(okOrder, "delete-after-save", "truncate/order", lineOf(w, d.c), "deletion is dominated by both walks", "order violated")
 	}
 
-	r.rule("save-what-is-counted", "the callback of the funds walk saves every vertex whose funds it accumulates (same callback, same vertex), and the ids deleted are the ones the collecting walk gathered", 2)
-	if cb := m.save.cb; cb != nil && m.save.cbArg < len(cb.Params) {
-		v := cb.Params[m.save.cbArg].Name()
-		r.seen(shortFn(cb))
-		stepOK := func(callee string) gspec {
-			return func(fn2 *ssa.Function, res resolver) []Edge {
-				var es []Edge
-				for _, c := range callsTo(fn2, callee) {
-					_, a := callArgs(c)
-					if len(a) > 0 && res(a[0]) == v {
-						es = append(es, passErrNil(c)...)
-					}
-				}
-				return es
-			}
-		}
-		nvE := deepEdges(cb, idRes, stepOK(nNextVertex), 1)
-		svE := deepEdges(cb, idRes, stepOK(nSaveVertex), 1)
-		var saveCalls []ssa.CallInstruction
-		for _, c := range callsTo(cb, nSaveVertex) {
-			_, a := callArgs(c)
-			if pathOf(a[0]) == v {
-				saveCalls = append(saveCalls, c)
-			}
-		}
-		ok := len(nvE) > 0 && (len(svE) > 0 || len(saveCalls) > 0)
-		for _, ret := range returnsOf(cb) {
-			if !successReturn(ret) {
-				continue
-			}
-			propagates := false
-			vals, _ := resultVals(ret, 0)
-			for _, sc := range saveCalls {
-				if len(vals) == 1 && sameVal(vals[0], callValue(sc)) {
-					propagates = true
-				}
-			}
-			if !behind(ret, nvE) || !(behind(ret, svE) || propagates) {
-				ok = false
-			}
-		}
-		r.check(ok, "save-what-is-counted", "truncate/perform", w.Pos(cb.Pos()), "the walk callback succeeds only after nextVertex(v) and saveVertexToStorage(v) both succeeded", fmt.Sprintf("nextVertex-edges=%d save-edges=%d", len(nvE), len(svE)))
-	} else {
-		r.bad("save-what-is-counted", "truncate/perform", lineOf(w, m.save.d.c), "the funds walk callback must be resolvable (function literal, function or method value)", "not resolvable")
-	}
-	if cb := m.del.cb; cb != nil && m.del.cbArg < len(cb.Params) {
-		v := cb.Params[m.del.cbArg].Name()
-		ok := false
-		for _, d := range cbCalls(cb, bySuffix("strBuffer).add")) {
-			_, a := callArgs(d.c)
-			if x, isV := vertexOfHashArg(a[0]); isV && d.path(x) == v {
-				ok = true
-			}
-		}
-		for _, d := range m.dels {
-			_, da := callArgs(d.c)
-			fromBuf := false
-			for _, o := range origins(da[0]) {
-				if ex, isEx := o.(*ssa.Extract); isEx {
-					if c, isCall := ex.Tuple.(*ssa.Call); isCall && strings.HasSuffix(calleeName(c), "strBuffer).next") {
-						fromBuf = true
-					}
-				}
-			}
-			ok = ok && fromBuf
-		}
-		r.check(ok, "save-what-is-counted", "truncate/delete-set", w.Pos(cb.Pos()), "the ids deleted are exactly the hashes collected by the third walk", "collector or deletion loop not bound")
-	} else {
-		r.bad("save-what-is-counted", "truncate/delete-set", lineOf(w, m.del.d.c), "the collecting callback must be resolvable", "not resolvable")
-	}
+	saveWhatIsCounted(w, r, m)
 
 	r.rule("under-ledger-lock", "the whole truncation runs with AccountingBook.mux held exclusively; the previous checkpoint is loaded before the funds walk", 5)
 	var steps []dcall
@@ -459,6 +390,9 @@ func prunedAreCheckpointed(w *World, r *Report, rule string) {
 			for _, c := range callsTo(fn2, nSaveVertex) {
 				_, a := callArgs(c)
 				if len(a) > 0 && res(a[0]) == v {
+					if guardCallSink != nil {
+						*guardCallSink = append(*guardCallSink, guardHit{c, "errnil"})
+					}
 					es = append(es, passErrNil(c)...)
 				}
 			}
@@ -519,11 +453,11 @@ func truncateOwns(w *World, c ssa.CallInstruction) bool {
 			continue
 		}
 		for _, cs := range d.chain {
-			h := cs.Common().StaticCallee()
+			h := calleeOf(cs)
 			for _, caller := range staticCallers(w, h) {
 				okCaller := caller.Parent() == m.top
 				for _, cs2 := range d.chain {
-					if caller.Parent() == cs2.Common().StaticCallee() {
+					if caller.Parent() == calleeOf(cs2) {
 						okCaller = true
 					}
 				}
@@ -551,20 +485,7 @@ func checkpointCountsOnlyTheWalked(w *World, r *Report, rule string) {
 	cb := m.save.cb
 	bad := ""
 	// 1. every fold call sits in the callback (or in a helper only the callback reaches)
-	inCb := map[*ssa.Function]bool{cb: true}
-	for _, d := range deepCalls(cb, func(ssa.CallInstruction) bool { return true }, 2) {
-		if cal := d.c.Common().StaticCallee(); cal != nil && isRepoFunc(cal) {
-			only := true
-			for _, cs := range staticCallers(w, cal) {
-				if !inCb[cs.Parent()] {
-					only = false
-				}
-			}
-			if only {
-				inCb[cal] = true
-			}
-		}
-	}
+	inCb := ownedBy(w, cb)
 	nFold := 0
 	for _, fn := range w.RepoFuncs("accountant") {
 		for _, c := range callsTo(fn, nNextVertex) {
@@ -597,4 +518,109 @@ func checkpointCountsOnlyTheWalked(w *World, r *Report, rule string) {
 		}
 	}
 	r.check(bad == "" && nFold > 0, rule, "truncate/fold-sites", lineOf(w, m.save.d.c), "the checkpoint fold sees exactly the vertices of the save walk", bad)
+}
+
+// ownedBy: cb and the functions (helpers, sibling function literals) that are called from cb and from nowhere else.
+func ownedBy(w *World, cb *ssa.Function) map[*ssa.Function]bool {
+	in := map[*ssa.Function]bool{cb: true}
+	if cb == nil {
+		return in
+	}
+	for _, d := range deepCalls(cb, func(ssa.CallInstruction) bool { return true }, 2) {
+		if cal := calleeOf(d.c); cal != nil && isRepoFunc(cal) && !in[cal] {
+			only := true
+			for _, cs := range staticCallers(w, cal) {
+				if !in[cs.Parent()] {
+					only = false
+				}
+			}
+			if only {
+				in[cal] = true
+			}
+		}
+	}
+	return in
+}
+
+// saveWhatIsCounted: a vertex's transfer lives in exactly one of two places — the checkpoint or the live graph. The save
+// walk's callback counts and stores the same vertex, succeeds only when both succeeded, and what is deleted is what the
+// collecting walk gathered (shared by C06 and C07).
+func saveWhatIsCounted(w *World, r *Report, m *truncModel) {
+	if !m.complete() {
+		r.bad("save-what-is-counted", "truncate/walks", "-", "truncate consists of a depth walk, a funds/save walk, a collecting walk and the deletion of what was collected", m.describe())
+		return
+	}
+	r.rule("save-what-is-counted", "the callback of the funds walk saves every vertex whose funds it accumulates (same callback, same vertex), and the ids deleted are the ones the collecting walk gathered", 2)
+	if cb := m.save.cb; cb != nil && m.save.cbArg < len(cb.Params) {
+		v := cb.Params[m.save.cbArg].Name()
+		r.seen(shortFn(cb))
+		stepOK := func(callee string) gspec {
+			return func(fn2 *ssa.Function, res resolver) []Edge {
+				var es []Edge
+				for _, c := range callsTo(fn2, callee) {
+					_, a := callArgs(c)
+					if len(a) > 0 && res(a[0]) == v {
+						if guardCallSink != nil {
+							*guardCallSink = append(*guardCallSink, guardHit{c, "errnil"})
+						}
+						es = append(es, passErrNil(c)...)
+					}
+				}
+				return es
+			}
+		}
+		nvE := deepEdges(cb, idRes, stepOK(nNextVertex), 1)
+		svE := deepEdges(cb, idRes, stepOK(nSaveVertex), 1)
+		var saveCalls []ssa.CallInstruction
+		for _, c := range callsTo(cb, nSaveVertex) {
+			_, a := callArgs(c)
+			if pathOf(a[0]) == v {
+				saveCalls = append(saveCalls, c)
+			}
+		}
+		ok := len(nvE) > 0 && (len(svE) > 0 || len(saveCalls) > 0)
+		for _, ret := range returnsOf(cb) {
+			if !successReturn(ret) {
+				continue
+			}
+			propagates := false
+			vals, _ := resultVals(ret, 0)
+			for _, sc := range saveCalls {
+				if len(vals) == 1 && sameVal(vals[0], callValue(sc)) {
+					propagates = true
+				}
+			}
+			if !behind(ret, nvE) || !(behind(ret, svE) || propagates) {
+				ok = false
+			}
+		}
+		r.check(ok, "save-what-is-counted", "truncate/perform", w.Pos(cb.Pos()), "the walk callback succeeds only after nextVertex(v) and saveVertexToStorage(v) both succeeded", fmt.Sprintf("nextVertex-edges=%d save-edges=%d", len(nvE), len(svE)))
+	} else {
+		r.bad("save-what-is-counted", "truncate/perform", lineOf(w, m.save.d.c), "the funds walk callback must be resolvable (function literal, function or method value)", "not resolvable")
+	}
+	if cb := m.del.cb; cb != nil && m.del.cbArg < len(cb.Params) {
+		v := cb.Params[m.del.cbArg].Name()
+		ok := false
+		for _, d := range cbCalls(cb, bySuffix("strBuffer).add")) {
+			_, a := callArgs(d.c)
+			if x, isV := vertexOfHashArg(a[0]); isV && d.path(x) == v {
+				ok = true
+			}
+		}
+		for _, d := range m.dels {
+			_, da := callArgs(d.c)
+			fromBuf := false
+			for _, o := range origins(da[0]) {
+				if ex, isEx := o.(*ssa.Extract); isEx {
+					if c, isCall := ex.Tuple.(*ssa.Call); isCall && strings.HasSuffix(calleeName(c), "strBuffer).next") {
+						fromBuf = true
+					}
+				}
+			}
+			ok = ok && fromBuf
+		}
+		r.check(ok, "save-what-is-counted", "truncate/delete-set", w.Pos(cb.Pos()), "the ids deleted are exactly the hashes collected by the third walk", "collector or deletion loop not bound")
+	} else {
+		r.bad("save-what-is-counted", "truncate/delete-set", lineOf(w, m.del.d.c), "the collecting callback must be resolvable", "not resolvable")
+	}
 }
